@@ -16,7 +16,9 @@ EXPLANATION = (
     "Date column with the start / end date - never through index labels or row positions - and the rows of the matrix "
     "are addressed by the time-step counter of the window's date range. C15.c: in every function that receives the weather frame (followed "
     "positionally from self.weather_df) whole-row operations (dropna, drop_duplicates, duplicated) name the columns they look at - an unrelated "
-    "extra column must not decide which days survive. NOT decided: numerical identity of the runs.")
+    "extra column must not decide which days survive. C15.d (day binding): the frame read_weather_inputs returns is guarded by a raising test that "
+    "compares its dates for equality with clock.time_span, and the frame is not re-defined after that comparison - the daily step and the "
+    "season-long degree-day sums address rows by day number, so a missing / duplicated / out-of-order record must not get through. NOT decided: numerical identity of the runs.")
 
 RECEIVER = {
     "MinTemp": re.compile(r"(^|_)(t?min|temp_min|tmin)", re.I),
@@ -107,4 +109,7 @@ def run(chk, prog, tier):
     from ._weather import whole_row_ops
     nrow = whole_row_ops(chk, prog, "C15.c")
     chk.floor("C15.c", len(chk.notes.get("C15.c_weather_frame_formals", [])), 3, "functions receiving the weather frame")
+    # ---------------------------------------------------------------- C15.d
+    from ._weather import day_binding
+    day_binding(chk, prog, "C15.d")
     chk.exhaustive = True
